@@ -114,6 +114,8 @@ def main():
     except ValueError:
         seed = 1
     from vlib import runner
+    if os.environ.get("VERIF_MODE"):
+        runner.apply_mode()
     try:
         mod = importlib.import_module("props." + a.prop.lower())
     except ImportError as e:
